@@ -20,6 +20,12 @@ interleaving** with the job (`Run` is closed under all enabled steps, so a syste
 inside `run` across arbitrarily many caller steps). `l = l1 ++ e :: l2` reads "at the moment
 event `e` is logged, the log so far is `l1`".
 
+Panics are part of the runs: a system of the job may panic while it is inside its window
+(`sysP`; the job then never sends, its sender is dropped, and every later call of any of the
+nine methods unwinds with "Sender dropped": `unwound op`), a thread-local system may panic
+inside `wait` (`tlP`, then `unwound wait`; nothing but the caller's position changes). `setup`
+calls the setup hook of every system (`hook`), after `inner()`.
+
 The driver executes `feed` / `acceptsLog` of the same file; `accepted_is_run` transfers every
 theorem below to every merged log the driver accepts.
 -/
@@ -35,7 +41,7 @@ theorem accessor_quiescent {op : AOp} {v : Bool} (h : Run P c l) (hl : l = l1 ++
     (h1 : op ≠ .running) (h2 : op ≠ .dispatch) : Quiescent P l1 (dispatches l1) := by
   obtain ⟨c1, lb, c1', hr, hs⟩ := run_split h l1 _ l2 hl
   have hi := run_inv hr
-  rcases step_ret_cases hs with ⟨hc, _⟩ | ⟨_, hc⟩ | ⟨r, hc, _⟩ | ⟨_, hc⟩
+  rcases step_ret_cases hs with ⟨hc, _⟩ | ⟨_, hc⟩ | ⟨r, hc, _⟩ | ⟨_, hc⟩ | ⟨hc, _⟩
   · have hcd := hi.caller_data
     have hd := hi.disp
     rw [hc] at hcd hd
@@ -50,6 +56,12 @@ theorem accessor_quiescent {op : AOp} {v : Bool} (h : Run P c l) (hl : l = l1 ++
     rw [hd] at this
     simpa [spawnedBit] using this
   · exact absurd hc h1
+  · have hcd := hi.caller_data
+    have hd := hi.disp
+    rw [hc] at hcd hd
+    have := inv_quiescent hi hcd
+    rw [hd] at this
+    simpa [spawnedBit] using this
 
 /-- … in particular no system is inside its F…D window at that moment. -/
 theorem accessor_none_open {op : AOp} {v : Bool} (h : Run P c l) (hl : l = l1 ++ .ret op v :: l2)
@@ -62,12 +74,13 @@ theorem dispatch_quiescent {v : Bool} (h : Run P c l) (hl : l = l1 ++ .ret .disp
     (∀ d, d < dispatches l1 → Traces P.job (projD d l1)) ∧ (∀ d, dispatches l1 < d → projD d l1 = []) := by
   obtain ⟨c1, lb, c1', hr, hs⟩ := run_split h l1 _ l2 hl
   have hi := run_inv hr
-  rcases step_ret_cases hs with ⟨_, hc⟩ | ⟨hc, _⟩ | ⟨r, _, hc⟩ | ⟨_, hc⟩
+  rcases step_ret_cases hs with ⟨_, hc⟩ | ⟨hc, _⟩ | ⟨r, _, hc⟩ | ⟨_, hc⟩ | ⟨_, hc⟩
   · exact absurd rfl hc
   · have hd := hi.disp
     rw [hc] at hd
     simp only [spawnedBit] at hd
     exact ⟨fun d hlt => hi.earlier d (by omega), fun d hlt => hi.beyond d (by omega)⟩
+  · cases hc
   · cases hc
   · cases hc
 
@@ -77,7 +90,7 @@ theorem running_true_while_open {v : Bool} (h : Run P c l) (hl : l = l1 ++ .ret 
     (d x : Nat) (ho : OpenAt l1 d x) : v = true := by
   obtain ⟨c1, lb, c1', hr, hs⟩ := run_split h l1 _ l2 hl
   have hi := run_inv hr
-  rcases step_ret_cases hs with ⟨hc, _⟩ | ⟨_, hc⟩ | ⟨r, _, hc⟩ | ⟨hc, _⟩
+  rcases step_ret_cases hs with ⟨hc, _⟩ | ⟨_, hc⟩ | ⟨r, _, hc⟩ | ⟨hc, _⟩ | ⟨_, hc⟩
   · have hcd := hi.caller_data
     rw [hc] at hcd
     exact absurd rfl hcd.2.1
@@ -89,6 +102,7 @@ theorem running_true_while_open {v : Bool} (h : Run P c l) (hl : l = l1 ++ .ret 
       have hcd := hi.caller_data
       rw [hc] at hcd
       exact absurd ho (quiescent_none_open (inv_quiescent hi hcd) d x)
+  · cases hc
 
 /-- **C15 (running, 2).** `running()` returns `false` only once every dispatch issued so far
 has run to completion. -/
@@ -96,7 +110,7 @@ theorem running_false_only_done (h : Run P c l) (hl : l = l1 ++ .ret .running fa
     Quiescent P l1 (dispatches l1) := by
   obtain ⟨c1, lb, c1', hr, hs⟩ := run_split h l1 _ l2 hl
   have hi := run_inv hr
-  rcases step_ret_cases hs with ⟨hc, _⟩ | ⟨_, hc⟩ | ⟨r, _, hc⟩ | ⟨hc, _⟩
+  rcases step_ret_cases hs with ⟨hc, _⟩ | ⟨_, hc⟩ | ⟨r, _, hc⟩ | ⟨hc, _⟩ | ⟨_, hc⟩
   · have hcd := hi.caller_data
     rw [hc] at hcd
     exact absurd rfl hcd.2.1
@@ -108,6 +122,7 @@ theorem running_false_only_done (h : Run P c l) (hl : l = l1 ++ .ret .running fa
     have := inv_quiescent hi hcd
     rw [hd] at this
     simpa [spawnedBit] using this
+  · cases hc
 
 /-- … and the dispatcher then holds the world and the stages again (`Data::Inner`), no job
 exists: state form of the same fact, at the moment `inner_noblock()` has answered. -/
@@ -164,26 +179,15 @@ theorem wait_runs_tl {v : Bool} (h : Run P c l) (hl : l = l1 ++ .ret .wait v :: 
     tlSince l1 [] = P.tl.flatMap fun t => [Ev.F t, Ev.D t] := by
   obtain ⟨c1, lb, c1', hr, hs⟩ := run_split h l1 _ l2 hl
   have ht := run_tl hr
-  rcases step_ret_cases hs with ⟨hc, _⟩ | ⟨_, hc⟩ | ⟨r, hc, _⟩ | ⟨_, hc⟩
+  rcases step_ret_cases hs with ⟨hc, _⟩ | ⟨_, hc⟩ | ⟨r, hc, _⟩ | ⟨_, hc⟩ | ⟨_, hc⟩
   · -- `holding wait` is not reachable: `acquire` sends `wait` to `inTl`
     have hcd := (run_inv hr).caller_data
     rw [hc] at hcd
-    exact absurd rfl hcd.2.2
+    exact absurd rfl hcd.2.2.1
   · cases hc
   · rw [hc] at ht
-    obtain ⟨data, job, caller, n⟩ := c1
-    simp only at hc
-    subst hc
-    cases lb <;> simp only [step] at hs <;> try (cases hs)
-    · split at hs
-      · rename_i hn
-        exact traces_seqN_leaf _ _ (traces_of_derivs ht hn)
-      · cases hs
-    · split at hs <;> cases hs
-    · cases job <;> simp only at hs <;> try (cases hs)
-      split at hs <;> cases hs
-    · cases job <;> simp only at hs <;> try (cases hs)
-      split at hs <;> cases hs
+    exact traces_seqN_leaf _ _ (traces_of_derivs ht (step_ret_inTl hs hc))
+  · cases hc
   · cases hc
 
 /-- **C15 (exactly once).** At every moment at which an accessor (anything but `running`)
@@ -229,23 +233,238 @@ theorem quiet_stutters {lb : Lbl} {c' : Ctl} (hs : step P c lb = some (c', some 
 disabled only while the job has not sent (`Data::Rx`, job still `running`); and as soon as the
 job's residual is nullable — every system has finished — `send` and then the operation's
 `inner()` are enabled. So a call that stays blocked although every system has finished and the
-pool is idle is not a behaviour of the model. -/
+pool is idle is not a behaviour of the model. (Third case: a system of the job has panicked;
+then the call stays blocked only until every system that had started has come to its end —
+`die`, the sender is dropped — and then unwinds.) -/
 theorem blocked_only_while_running {op : AOp} (h : Run P c l) (hc : c.caller = .called op)
     (h1 : op ≠ .running) :
     (∃ c', step P c .acquire = some (c', none)) ∨
     (∃ r, c.job = .running r ∧ c.data = .rx ∧
-      (r.nullable = true → ∃ c1 c2, step P c .send = some (c1, none) ∧ step P c1 .acquire = some (c2, none))) := by
+      (r.nullable = true → ∃ c1 c2, step P c .send = some (c1, none) ∧ step P c1 .acquire = some (c2, none))) ∨
+    (∃ r ps g, c.job = .failed r ps g ∧ c.data = .rx ∧
+      (g = true → ∃ c', step P c .raise = some (c', some (.unwound op))) ∧
+      (g = false → (opens r).all ps.contains = true →
+        ∃ c1 c2, step P c .die = some (c1, none) ∧ step P c1 .raise = some (c2, some (.unwound op)))) := by
   have hdj := (run_inv h).data_job
   obtain ⟨data, job, caller, n⟩ := c
   simp only at hc hdj
   subst hc
   cases data <;> cases job <;> simp only [dataOk] at hdj
   · left; simp [step, h1, available]
-  · right
+  · right; left
     rename_i r
     refine ⟨r, rfl, rfl, fun hn => ?_⟩
     simp [step, hn, h1, available]
   · left; simp [step, h1, available]
+  · right; right
+    rename_i r ps g
+    refine ⟨r, ps, g, rfl, rfl, fun hg => ?_, fun hg ho => ?_⟩
+    · subst hg; simp [step]
+    · subst hg
+      have ho' : ∀ x, x ∈ opens r → x ∈ ps := by simpa using ho
+      refine ⟨{ data := .rx, job := .failed r ps true, caller := .called op, nDisp := n },
+        { data := .rx, job := .failed r ps true, caller := .ready, nDisp := n }, ?_, ?_⟩
+      · simp only [step, ho, if_true]
+      · simp only [step]
+
+/-! ### a system of the job panics (pool with a panic handler) -/
+
+/-- **After a panic inside the job nothing is ever reported complete.** Once a system of
+dispatch `d` has panicked, no call returns any more — neither `wait`, `wait_without_tl`, `world`,
+`res`, `world_mut`, `mut_res`, `setup` nor a later `dispatch`, and `running()` does not answer
+`false` — with two exceptions that claim nothing: `running()` may still answer `true`, and the
+`dispatch` call that spawned that very job may still be on its way out. -/
+theorem job_panic_no_return {op : AOp} {v : Bool} {th : Th} {d x : Nat} (h : Run P c l)
+    (hl : l = l1 ++ .ret op v :: l2) (hp : AEv.sysP th d x ∈ l1) :
+    (op = .running ∧ v = true) ∨ (op = .dispatch ∧ d = dispatches l1) := by
+  obtain ⟨c1, lb, c1', hr, hs⟩ := run_split h l1 _ l2 hl
+  have hi := run_inv hr
+  obtain ⟨hrx, _, hd⟩ := inv_failed hi hp
+  have hcd := hi.caller_data
+  rcases step_ret_cases hs with ⟨hc, _⟩ | ⟨hc, ho⟩ | ⟨r, hc, _⟩ | ⟨hc, ho⟩ | ⟨hc, _⟩
+  · rw [hc, hrx] at hcd; cases hcd.1
+  · right
+    have hdisp := hi.disp
+    rw [hc] at hdisp
+    simp only [spawnedBit] at hdisp
+    exact ⟨ho, by omega⟩
+  · rw [hc, hrx] at hcd; cases hcd
+  · left
+    refine ⟨ho, ?_⟩
+    cases v with
+    | true => rfl
+    | false => rw [hc, hrx] at hcd; cases hcd
+  · rw [hc, hrx] at hcd; cases hcd
+
+/-- … **no thread-local system starts** (or goes on) in a `wait` for a dispatch in which a
+system panicked, nor in any later `wait` … -/
+theorem job_panic_no_tl {th th' : Th} {e : Ev Nat} {d x : Nat} (h : Run P c l)
+    (hl : l = l1 ++ .tl th e :: l2) : AEv.sysP th' d x ∉ l1 := by
+  intro hp
+  obtain ⟨c1, lb, c1', hr, hs⟩ := run_split h l1 _ l2 hl
+  have hi := run_inv hr
+  obtain ⟨hrx, _, _⟩ := inv_failed hi hp
+  obtain ⟨_, r, hc⟩ := step_tl_cases hs
+  have hcd := hi.caller_data
+  rw [hc, hrx] at hcd
+  cases hcd
+
+/-- … no setup hook is called … -/
+theorem job_panic_no_hook {th th' : Th} {y d x : Nat} (h : Run P c l)
+    (hl : l = l1 ++ .hook th y :: l2) : AEv.sysP th' d x ∉ l1 := by
+  intro hp
+  obtain ⟨c1, lb, c1', hr, hs⟩ := run_split h l1 _ l2 hl
+  have hi := run_inv hr
+  obtain ⟨hrx, _, _⟩ := inv_failed hi hp
+  obtain ⟨_, rest, hc, _⟩ := step_hook_cases hs
+  have hcd := hi.caller_data
+  rw [hc, hrx] at hcd
+  cases hcd
+
+/-- … the systems' own completion signal is never seen … -/
+theorem job_panic_no_quiet {th' : Th} {d x : Nat} (h : Run P c l)
+    (hl : l = l1 ++ .quiet :: l2) : AEv.sysP th' d x ∉ l1 := by
+  intro hp
+  obtain ⟨c1, lb, c1', hr, hs⟩ := run_split h l1 _ l2 hl
+  obtain ⟨_, ⟨r, ps, g, hj⟩, _⟩ := inv_failed (run_inv hr) hp
+  obtain ⟨_, hq, _⟩ := step_quiet_cases hs
+  rw [hj] at hq
+  cases hq
+
+/-- … and no system of a later dispatch ever runs. -/
+theorem job_panic_no_next_dispatch {th th' : Th} {d d' x : Nat} {e : Ev Nat} (h : Run P c l)
+    (hl : l = l1 ++ .sys th d' e :: l2) (hp : AEv.sysP th' d x ∈ l1) : d' = d := by
+  obtain ⟨c1, lb, c1', hr, hs⟩ := run_split h l1 _ l2 hl
+  obtain ⟨_, _, hd⟩ := inv_failed (run_inv hr) hp
+  obtain ⟨_, hd', _⟩ := step_sys_cases hs
+  omega
+
+/-- a system panics only inside its own window, on a pool thread -/
+theorem job_panic_inside {th : Th} {d x : Nat} (h : Run P c l) (hl : l = l1 ++ .sysP th d x :: l2) :
+    th = .worker ∧ ∃ r, derivs P.job.toR (projD d l1) = some r ∧ x ∈ opens r := by
+  obtain ⟨c1, lb, c1', hr, hs⟩ := run_split h l1 _ l2 hl
+  have hcur := (run_inv hr).current
+  obtain ⟨hth, hd, _, _, ⟨r, hj, hx, _⟩ | ⟨r, ps, hj, hx, _⟩⟩ := step_sysP_cases hs
+  · rw [hj] at hcur
+    exact ⟨hth, r, hd ▸ hcur.2, by simpa using hx⟩
+  · rw [hj] at hcur
+    exact ⟨hth, r, hd ▸ hcur.2, by simpa using hx⟩
+
+/-- **Every later call unwinds.** In a reachable state in which the failed job's sender is gone,
+a call of any of the nine methods can neither get through `inner()` nor through
+`inner_noblock()`; the one step it can take is the "Sender dropped" panic. -/
+theorem dead_every_call_unwinds {op : AOp} {r : RTask Nat} {ps : List Nat} (h : Run P c l)
+    (hc : c.caller = .called op) (hj : c.job = .failed r ps true) :
+    step P c .acquire = none ∧ step P c .poll = none ∧
+    step P c .raise = some ({ c with caller := .ready }, some (.unwound op)) := by
+  have hdj := (run_inv h).data_job
+  obtain ⟨data, job, caller, n⟩ := c
+  simp only at hc hj hdj
+  subst hc hj
+  cases data <;> simp only [dataOk] at hdj
+  refine ⟨?_, ?_, ?_⟩
+  · by_cases ho : op = .running <;> simp [step, ho, available]
+  · cases op <;> simp [step]
+  · simp [step]
+
+/-- **Why a call unwinds.** Either a system of a job has panicked (then every later call does),
+or — the dispatcher being otherwise untouched — it is `wait`, every dispatch issued so far has
+run to completion, and a thread-local system panicked inside its window in this very `wait`:
+the thread-local events since `call wait` are a prefix `F t₁ D t₁ … F tᵢ` of the thread-local
+task that leaves `tᵢ` open, so the systems registered after `tᵢ` did not start. -/
+theorem unwound_cases {op : AOp} (h : Run P c l) (hl : l = l1 ++ .unwound op :: l2) :
+    (∃ th d x, AEv.sysP th d x ∈ l1) ∨
+    (op = .wait ∧ Quiescent P l1 (dispatches l1) ∧
+      ∃ r x, derivs P.tlTask.toR (tlSince l1 []) = some r ∧ x ∈ opens r) := by
+  obtain ⟨c1, lb, c1', hr, hs⟩ := run_split h l1 _ l2 hl
+  have hi := run_inv hr
+  obtain ⟨_, ⟨_, _, r, ps, hj⟩ | ⟨hc, ho⟩⟩ := step_unwound_cases hs
+  · left
+    have hf := hi.fail_iff
+    rw [hj] at hf
+    exact exists_sysP_of_any hf
+  · right
+    have hcd := hi.caller_data
+    have hd := hi.disp
+    have ht := run_tl hr
+    rw [hc] at hcd hd ht
+    have hq := inv_quiescent hi hcd
+    rw [hd] at hq
+    exact ⟨ho, by simpa [spawnedBit] using hq, ht⟩
+
+/-! ### a thread-local system panics inside `wait` -/
+
+/-- **A thread-local panic leaves the dispatcher intact.** The panic happens on the calling
+thread inside `wait`, after every dispatch has run to completion; the step changes nothing but
+the caller's position (`Data` stays `Inner`, no job, the same thread-local list `P.tl` — it is
+part of the plan, not of the state), and so does the unwinding of `wait` that follows. Every
+later `wait` therefore runs *all* thread-local systems again, in registration order:
+`wait_runs_tl` holds of every `ret wait` of every run, those after a panic included. -/
+theorem tl_panic_keeps_dispatcher {th : Th} {x : Nat} (h : Run P c l) (hl : l = l1 ++ .tlP th x :: l2) :
+    th = .caller ∧ Quiescent P l1 (dispatches l1) ∧
+    ∃ c1 lb, Run P c1 l1 ∧ step P c1 lb = some ({ c1 with caller := .tlFailed }, some (.tlP th x)) ∧
+      c1.data = .inner ∧ dataOk .inner c1.job := by
+  obtain ⟨c1, lb, c1', hr, hs⟩ := run_split h l1 _ l2 hl
+  have hi := run_inv hr
+  obtain ⟨hth, ⟨r, hc, _⟩, hc'⟩ := step_tlP_cases hs
+  have hcd := hi.caller_data
+  have hd := hi.disp
+  rw [hc] at hcd hd
+  have hcd : c1.data = .inner := hcd
+  have hq := inv_quiescent hi hcd
+  rw [hd] at hq
+  exact ⟨hth, by simpa [spawnedBit] using hq, c1, lb, hr, hc' ▸ hs, hcd, hcd ▸ hi.data_job⟩
+
+/-- … state form: while `wait` unwinds, and after it has, the dispatcher holds the world and the
+stages (`Data::Inner`) and no job exists. -/
+theorem tl_panic_state (h : Run P c l) (hc : c.caller = .tlFailed) : c.data = .inner ∧ dataOk .inner c.job := by
+  have hi := run_inv h
+  have hcd := hi.caller_data
+  rw [hc] at hcd
+  have hd : c.data = .inner := hcd
+  exact ⟨hd, hd ▸ hi.data_job⟩
+
+/-! ### `setup` -/
+
+/-- **`setup` reaches every system, in every job state.** When `setup` returns — whether it was
+called on an idle dispatcher, while a system of the running job was inside `run`, while the job
+had not started, or after the job had finished unobserved: the theorem is about every run — the
+setup hooks called since `call setup` are those of every system of the stages, in stage / group
+order, followed by those of the thread-local systems, each exactly once; and (it is an accessor:
+`accessor_quiescent`) every dispatch issued so far had run to completion before the first hook. -/
+theorem setup_reaches {v : Bool} (h : Run P c l) (hl : l = l1 ++ .ret .setup v :: l2) :
+    hookSince l1 [] = P.job.sys ++ P.tl ∧ Quiescent P l1 (dispatches l1) := by
+  refine ⟨?_, accessor_quiescent h hl (by decide) (by decide)⟩
+  obtain ⟨c1, lb, c1', hr, hs⟩ := run_split h l1 _ l2 hl
+  have hk := run_hk hr
+  rcases step_ret_cases hs with ⟨hc, _⟩ | ⟨_, hc⟩ | ⟨r, _, hc⟩ | ⟨_, hc⟩ | ⟨hc, _⟩
+  · -- `holding setup` is not reachable: `acquire` sends `setup` to `inSetup`
+    have hcd := (run_inv hr).caller_data
+    rw [hc] at hcd
+    exact absurd rfl hcd.2.2.2
+  · cases hc
+  · cases hc
+  · cases hc
+  · rw [hc] at hk
+    simpa [hkOk] using hk
+
+/-- a setup hook is called only on the calling thread, inside `setup`, and only when every
+dispatch issued so far has run to completion (`setup` joins the running dispatch first) -/
+theorem hook_only_in_setup {th : Th} {x : Nat} (h : Run P c l) (hl : l = l1 ++ .hook th x :: l2) :
+    th = .caller ∧
+    (∃ l0 l0', l1 = l0 ++ .call .setup :: l0' ∧ ∀ y, y ∈ l0' → y.isCallRet = false) ∧
+    Quiescent P l1 (dispatches l1) := by
+  obtain ⟨c1, lb, c1', hr, hs⟩ := run_split h l1 _ l2 hl
+  have hi := run_inv hr
+  obtain ⟨hth, rest, hc, _⟩ := step_hook_cases hs
+  have hp := hi.pend
+  have hcd := hi.caller_data
+  have hd := hi.disp
+  rw [hc] at hp hcd hd
+  refine ⟨hth, pending_some hp, ?_⟩
+  have := inv_quiescent hi hcd
+  rw [hd] at this
+  simpa [spawnedBit] using this
 
 /-- the dispatcher `build_async` produces for a registration sequence (`Lemmas/Scenario.lean`:
 any list of registrations whose dependencies name earlier ones, any thread-local list) -/
@@ -293,7 +512,8 @@ def log0 : List AEv :=
    sys worker 1 (.F 2), sys worker 1 (.D 2), sys worker 1 (.F 3), sys worker 1 (.D 3),
    call running, ret running true, call running, ret running false,
    call wait, tl caller (.F 4), tl caller (.D 4), ret wait false,
-   call worldMut, ret worldMut false, call waitWithoutTl, ret waitWithoutTl false, call setup, ret setup false,
+   call worldMut, ret worldMut false, call waitWithoutTl, ret waitWithoutTl false,
+   call setup, hook caller 0, hook caller 1, hook caller 2, hook caller 3, hook caller 4, ret setup false,
    -- a third dispatch finishes on its own; it is first looked at by `mut_res`
    call dispatch, ret dispatch false, sys worker 2 (.F 0), sys worker 2 (.F 1), sys worker 2 (.D 1),
    sys worker 2 (.F 2), sys worker 2 (.D 2), sys worker 2 (.D 0), sys worker 2 (.F 3), sys worker 2 (.D 3),
@@ -342,6 +562,97 @@ open AEv AOp Th in
 example : acceptsLog ⟨.nil, [4]⟩ [call world, tl caller (.F 4)] = false ∧
     acceptsLog ⟨.nil, [4]⟩ [call wait, tl worker (.F 4)] = false := by decide
 
+/-! #### panics and `setup` -/
+
+open AEv AOp Th in
+/-- system 1 of the first stage panics while its sibling 0 is inside `run`: `running()` is still
+true; the sibling finishes, the sender is dropped (`gone`: the pool's panic handler was seen);
+then each of the nine methods unwinds; stage 2 (system 3) never runs -/
+def log1 : List AEv :=
+  [call dispatch, ret dispatch false, sys worker 0 (.F 0), sys worker 0 (.F 1), sysP worker 0 1,
+   call running, ret running true, call wait, sys worker 0 (.D 0), unwound wait, gone,
+   call running, unwound running, call dispatch, unwound dispatch, call waitWithoutTl, unwound waitWithoutTl,
+   call world, unwound world, call res, unwound res, call worldMut, unwound worldMut, call mutRes, unwound mutRes,
+   call setup, unwound setup, call wait, unwound wait, gone]
+
+example : acceptsLog P0 log1 = true := by decide
+/-- the hypothesis of the `job_panic_*` theorems holds of the prefix before `call running` -/
+example : AEv.sysP .worker 0 1 ∈ log1.take 5 := by decide
+
+open AEv AOp Th in
+/-- refused after that panic: `wait` returns; `running()` answers false; a thread-local system
+starts; the call unwinds while the sibling is still inside `run`; a later dispatch starts;
+the panic of a system that is not inside its window -/
+example :
+    let pre := [call dispatch, ret dispatch false, sys worker 0 (.F 0), sys worker 0 (.F 1), sysP worker 0 1]
+    acceptsLog P0 (pre ++ [sys worker 0 (.D 0), call wait, ret wait false]) = false ∧
+    acceptsLog P0 (pre ++ [sys worker 0 (.D 0), call running, ret running false]) = false ∧
+    acceptsLog P0 (pre ++ [sys worker 0 (.D 0), call wait, tl caller (.F 4)]) = false ∧
+    acceptsLog P0 (pre ++ [call world, unwound world]) = false ∧
+    acceptsLog P0 (pre ++ [sys worker 0 (.D 0), sys worker 0 (.F 3)]) = false ∧
+    acceptsLog P0 (pre ++ [sys worker 0 (.D 1)]) = false ∧
+    acceptsLog P0 [call dispatch, ret dispatch false, sys worker 0 (.F 0), sysP worker 0 1] = false := by
+  decide
+
+/-- one system, two thread-local systems -/
+def P1 : APlan := ⟨.leaf 0, [4, 5]⟩
+
+open AEv AOp Th in
+/-- the second thread-local system panics inside the first `wait` (which unwinds); the next
+`wait` runs both again; then the first one panics: the second does not start in that `wait` -/
+def log2 : List AEv :=
+  [call dispatch, ret dispatch false, sys worker 0 (.F 0), sys worker 0 (.D 0),
+   call wait, tl caller (.F 4), tl caller (.D 4), tl caller (.F 5), tlP caller 5, unwound wait,
+   call running, ret running false,
+   call wait, tl caller (.F 4), tl caller (.D 4), tl caller (.F 5), tl caller (.D 5), ret wait false,
+   call dispatch, ret dispatch false, call wait, sys worker 1 (.F 0), sys worker 1 (.D 0),
+   tl caller (.F 4), tlP caller 4, unwound wait,
+   call setup, hook caller 0, hook caller 4, hook caller 5, ret setup false,
+   call wait, tl caller (.F 4), tl caller (.D 4), tl caller (.F 5), tl caller (.D 5), ret wait false]
+
+example : acceptsLog P1 log2 = true := by decide
+
+open AEv AOp Th in
+/-- refused: after the panic of thread-local system 4 the next one starts in the same `wait`;
+`wait` returns normally; the `wait` after a panic skips a thread-local system; a call unwinds
+although nothing panicked -/
+example :
+    let pre := [call wait, tl caller (.F 4), tlP caller 4]
+    acceptsLog P1 (pre ++ [tl caller (.F 5)]) = false ∧
+    acceptsLog P1 (pre ++ [ret wait false]) = false ∧
+    acceptsLog P1 (pre ++ [unwound wait, call wait, ret wait false]) = false ∧
+    acceptsLog P1 (pre ++ [unwound wait, call wait, tl caller (.F 5)]) = false ∧
+    acceptsLog P1 [call world, unwound world] = false ∧
+    acceptsLog P1 [call dispatch, ret dispatch false, sys worker 0 (.F 0), call wait, unwound wait] = false := by
+  decide
+
+open AEv AOp Th in
+/-- `setup` called while system 0 is inside `run`, while the job has not started, and after the
+job has finished unobserved: it returns after the job's end and after every hook -/
+def log3 : List AEv :=
+  [call dispatch, ret dispatch false, sys worker 0 (.F 0), call setup, sys worker 0 (.D 0),
+   hook caller 0, hook caller 4, hook caller 5, ret setup false,
+   call dispatch, ret dispatch false, call setup, sys worker 1 (.F 0), sys worker 1 (.D 0),
+   hook caller 0, hook caller 4, hook caller 5, ret setup false,
+   call dispatch, ret dispatch false, sys worker 2 (.F 0), sys worker 2 (.D 0), quiet,
+   call setup, hook caller 0, hook caller 4, hook caller 5, ret setup false]
+
+example : acceptsLog P1 log3 = true := by decide
+
+open AEv AOp Th in
+/-- refused: `setup` returns without having called a hook (idle, or while system 0 is inside
+`run`); a hook is called while system 0 is inside `run`; a hook is left out, called twice or out
+of order; a hook outside `setup` -/
+example :
+    acceptsLog P1 [call setup, ret setup false] = false ∧
+    acceptsLog P1 [call dispatch, ret dispatch false, sys worker 0 (.F 0), call setup, ret setup false] = false ∧
+    acceptsLog P1 [call dispatch, ret dispatch false, sys worker 0 (.F 0), call setup, hook caller 0] = false ∧
+    acceptsLog P1 [call setup, hook caller 0, hook caller 5] = false ∧
+    acceptsLog P1 [call setup, hook caller 0, hook caller 4, ret setup false] = false ∧
+    acceptsLog P1 [call setup, hook caller 0, hook caller 0] = false ∧
+    acceptsLog P1 [call world, hook caller 0] = false := by
+  decide
+
 end Async
 end Shred
 
@@ -363,3 +674,15 @@ end Shred
 #print axioms Shred.Async.quiet_quiescent
 #print axioms Shred.Async.quiet_stutters
 #print axioms Shred.Async.blocked_only_while_running
+#print axioms Shred.Async.job_panic_no_return
+#print axioms Shred.Async.job_panic_no_tl
+#print axioms Shred.Async.job_panic_no_hook
+#print axioms Shred.Async.job_panic_no_quiet
+#print axioms Shred.Async.job_panic_no_next_dispatch
+#print axioms Shred.Async.job_panic_inside
+#print axioms Shred.Async.dead_every_call_unwinds
+#print axioms Shred.Async.unwound_cases
+#print axioms Shred.Async.tl_panic_keeps_dispatcher
+#print axioms Shred.Async.tl_panic_state
+#print axioms Shred.Async.setup_reaches
+#print axioms Shred.Async.hook_only_in_setup
